@@ -2,6 +2,7 @@ package main
 
 import (
 	"fmt"
+	"sort"
 	"strings"
 
 	"github.com/preslavrachev/gomjml/mjml"
@@ -212,8 +213,42 @@ func attrSweepDocs() []leafDoc {
 }
 
 // leafSweep: the clause of `prop` must hold on the real output of every leaf document
+// headVariants: the document skeleton around the body — title / preview with payloads that mean something to HTML or to a
+// formatter, raw content and styles in the head, language and direction attributes, a breakpoint, fonts — each over two bodies
+func headVariants() []leafDoc {
+	var out []leafDoc
+	bodies := map[string]string{
+		"plain": `<mj-body><mj-section><mj-column><mj-text>T</mj-text></mj-column></mj-section></mj-body>`,
+		"rich":  `<mj-body><mj-section background-url="http://x/b.png"><mj-column><mj-text align="right">T</mj-text></mj-column></mj-section><mj-wrapper><mj-section><mj-column><mj-navbar hamburger="hamburger"><mj-navbar-link href="/a">A</mj-navbar-link></mj-navbar></mj-column></mj-section></mj-wrapper><mj-hero><mj-button href="u">b</mj-button></mj-hero></mj-body>`,
+	}
+	texts := []string{"Plain title", "Summer sale: up to 50%", "100% cotton", "%s %d %v", "a &amp; b &lt;c&gt;", `say "hi" it's`, "&lt;/title&gt;&lt;script&gt;", "--&gt; &lt;!-- x", "&lt;![endif]--&gt;", "", "   ", "ü ☃ 日本"}
+	heads := map[string]string{"none": "", "empty": "<mj-head></mj-head>"}
+	for i, t := range texts {
+		heads[fmt.Sprintf("title-%d", i)] = "<mj-head><mj-title>" + t + "</mj-title></mj-head>"
+		heads[fmt.Sprintf("preview-%d", i)] = "<mj-head><mj-preview>" + t + "</mj-preview></mj-head>"
+		heads[fmt.Sprintf("title+preview-%d", i)] = "<mj-head><mj-preview>" + t + "</mj-preview><mj-title>" + t + "</mj-title></mj-head>"
+	}
+	heads["raw"] = `<mj-head><mj-raw><meta name="x" content="1"><link rel="a" href="b"></mj-raw></mj-head>`
+	heads["raw-conditional"] = `<mj-head><mj-raw><!--[if mso]><style>.x{color:red}</style><![endif]--></mj-raw><mj-title>T</mj-title></mj-head>`
+	heads["styles"] = `<mj-head><mj-style>.a { color: red; }</mj-style><mj-style inline="inline">.b { color: blue; }</mj-style><mj-style>@media (max-width:480px) { .a { color: green; } }</mj-style></mj-head>`
+	heads["style-tricky"] = `<mj-head><mj-style>.a::after { content: "</style>"; } .b > .c { margin: 0 }</mj-style><mj-title>50%</mj-title><mj-preview>p</mj-preview></mj-head>`
+	heads["fonts-breakpoint"] = `<mj-head><mj-font name="Raleway" href="https://fonts.example/r.css?a=1&amp;b=2"/><mj-breakpoint width="320px"/><mj-attributes><mj-all font-family="Raleway"/></mj-attributes></mj-head>`
+	for hn, h := range heads {
+		for bn, b := range bodies {
+			for _, root := range []string{"<mjml>", `<mjml lang="fr" dir="rtl">`, `<mjml lang="pt-BR" owa="desktop">`} {
+				if root != "<mjml>" && !strings.HasPrefix(hn, "title-1") && hn != "none" && hn != "styles" {
+					continue
+				}
+				out = append(out, leafDoc{desc: "head/" + hn + "/" + bn, src: root + h + b + "</mjml>"})
+			}
+		}
+	}
+	sort.Slice(out, func(i, j int) bool { return out[i].desc+out[i].src < out[j].desc+out[j].src })
+	return out
+}
+
 func leafSweep(res *Result, drv *DriverPool, prop string) {
-	docs := leafVariants()
+	docs := append(leafVariants(), headVariants()...)
 	type rendered struct {
 		d    leafDoc
 		html string
